@@ -153,6 +153,27 @@ def _coding_chunk(acc, bodies):
                                   case={'kind': 'coding', 'alg': alg, 'body': b.hex() if len(b) < 64 else len(b)})
 
 
+def _reference_decode(alg, data):
+    """Independent decoders: the stdlib gzip module (multi-member aware, rejects trailing garbage) for gzip; for lz4 a
+    frame-by-frame loop that requires every byte to belong to a frame. None = the reference rejects the data."""
+    if alg == 'gzip':
+        import gzip
+        try:
+            return gzip.decompress(data)
+        except Exception:  # noqa: BLE001
+            return None
+    import lz4.frame
+    out = []
+    try:
+        while data:
+            chunk, n = lz4.frame.decompress(data, return_bytes_read=True)
+            out.append(chunk)
+            data = data[n:]
+    except Exception:  # noqa: BLE001
+        return None
+    return b''.join(out)
+
+
 def _corruption(ctx):
     from sdc11073.httpserver.compression import CompressionHandler
     from sdc11073.httpserver.httpreader import DecompressError, HTTPReader
@@ -196,6 +217,34 @@ def _corruption(ctx):
                 continue
             if got != body:
                 ctx.violation(f'coding/truncated-{alg}-accepted/cut={cut}', {'got': got[:40]}, case={'kind': 'corrupt', 'alg': alg})
+    # bytes after the end of the compressed stream: a second member / frame (legal for gzip and lz4: the reference decoders
+    # give the concatenation), zero padding, or junk (not a coding at all): the result must be what the reference decoder
+    # gives, or a rejection - never silently the first part only
+    for alg in list(CompressionHandler.available_encodings):
+        for bname, b1 in (('text', body), ('empty', b''), ('one', b'x')):
+            comp = CompressionHandler.compress_payload(alg, b1)
+            other = CompressionHandler.compress_payload(alg, b'<second/>')
+            tails = {'second-member': other, 'same-member-again': comp, 'junk': b'JUNKJUNK', 'one-byte': b'\x01',
+                     'zero-padding': b'\x00' * 4, 'truncated-second-member': other[:len(other) // 2], 'crlf': b'\r\n'}
+            for tname, tail in tails.items():
+                data = comp + tail
+                ctx.add('states')
+                ctx.transition()
+                ctx.evals()
+                ctx.trace()
+                ref = _reference_decode(alg, data)
+                try:
+                    got = HTTPReader.read_request_body(Msg({'Content-Length': str(len(data)), 'Content-Encoding': alg}, data))
+                except Exception:  # noqa: BLE001
+                    ctx.outcome(f'trailing-{alg}:rejected')
+                    continue
+                if ref is not None and got == ref:
+                    ctx.outcome(f'trailing-{alg}:as-reference-decoder')
+                    continue
+                ctx.outcome(f'trailing-{alg}:misinterpreted')
+                ctx.violation(f'coding/trailing-data-{alg}-misinterpreted/{tname}/{bname}',
+                              {'accepted_as': got[:60], 'reference_decoder': 'rejects' if ref is None else ref[:60]},
+                              case={'kind': 'corrupt', 'alg': alg})
     for alg in ('br', 'deflate', 'compress', 'GZIP ', 'zstd', 'identity;q=1'):
         ctx.add('states')
         ctx.transition()
